@@ -133,6 +133,40 @@ def _kind(t):
     return ("other:" + type(t).__name__, None, None)
 
 
+def _native_bits(t):
+    """bit width of the NATIVE type a resolved DataType boxes (None when it has none / cannot be told): the abstract hierarchy's
+    bit_width attribute is inherited and may not describe the boxed type (pyspark's IntegerType is 32 bit wide, its pandera class
+    inherits 64), so the width clause is judged on the native type where it has one"""
+    nt = getattr(t, "type", None)
+    mod = type(nt).__module__ or ""
+    try:
+        if mod.startswith("pyspark"):
+            return {"ByteType": 8, "ShortType": 16, "IntegerType": 32, "LongType": 64, "FloatType": 32, "DoubleType": 64}.get(type(nt).__name__)
+        if mod.startswith("numpy") and hasattr(nt, "itemsize") and getattr(nt, "kind", "") in "iufc":
+            return nt.itemsize * 8
+        if hasattr(nt, "pyarrow_dtype"):
+            return nt.pyarrow_dtype.bit_width
+        if mod.startswith("pandas") and hasattr(nt, "itemsize") and getattr(nt, "kind", "") in "iuf":
+            return nt.itemsize * 8
+        if mod.startswith("polars") or (isinstance(nt, type) and (nt.__module__ or "").startswith("polars")):
+            nm = nt.__name__ if isinstance(nt, type) else type(nt).__name__
+            import re as _re
+            m = _re.fullmatch(r"(?:U?Int|Float)(\d+)", nm)
+            return int(m.group(1)) if m else None
+    except Exception:  # noqa
+        return None
+    return None
+
+
+def _kind_native(t):
+    k = _kind(t)
+    if k[0] in ("int", "uint", "float", "complex"):
+        nb = _native_bits(t)
+        if nb is not None:
+            return (k[0], k[1], nb)
+    return k
+
+
 PHYSICAL = ("bool", "uint", "int", "float", "complex", "datetime", "date", "timedelta")
 PRIMITIVE_FOR_STR = ("bool", "uint", "int", "float", "complex", "datetime", "date", "timedelta", "category", "string")
 
@@ -250,6 +284,9 @@ def _explore(name):
                 k2 = _kind(t2)
                 if k1 != k2:
                     add("no_cross_kind", f"{type(t1).__name__}{k1}~{type(t2).__name__}{k2}", f"{t1!r}.check({t2!r}) is True")
+                elif _kind_native(t1) != _kind_native(t2):
+                    add("no_cross_kind", f"native:{type(t1).__name__}{_kind_native(t1)}~{type(t2).__name__}{_kind_native(t2)}",
+                        f"{t1!r}.check({t2!r}) is True although the boxed native types differ in bit width")
     return viol, len(keys), len(params), len(uniq), n_checks
 
 
